@@ -366,14 +366,16 @@ func instEcalli(interp *Interpreter, pc ProgramCounter, skipLength ProgramCounte
 		return ExitPanic, pc
 	}
 
-	return ExitHostCall | ExitReason(nuX), pc
+	// keep the reason type intact: a sign-extended immediate has its top bits set
+	return ExitHostCall | ExitReason(uint32(nuX)), pc
 }
 
 // opcode 20
 func instLoadImm64(interp *Interpreter, pc ProgramCounter, skipLength ProgramCounter) (ExitReason, ProgramCounter) {
-	rA := min(12, (int(interp.Program.InstructionData[pc+1]) % 16))
+	z := operandWindow(interp.Program.InstructionData, pc)
+	rA := min(12, (int(z[1]) % 16))
 	// zeta_{iota+2,...,+8}
-	instLength := interp.Program.InstructionData[pc+2 : pc+10]
+	instLength := z[2:10]
 	nuX, err := utils.DeserializeFixedLength(types.ByteSequence(instLength), types.U64(8))
 	if err != nil {
 		pvmLogger.Errorf("insLoadImm64 deserialization raise error: %v", err)
